@@ -1068,7 +1068,7 @@ def run(ctx):
         "order theorems assume the abscissa comparison is a total preorder whose equivalence is the dict's key equality, on a carrier "
         "containing the abscissae and the query value; PROVED for Z, Q (carrier = everything) and for binary64 (carrier = non-NaN floats, "
         "from the specification axioms FloatAxioms.eqb_spec / leb_spec of the Coq standard library: coq/Common/Float64Order.v). "
-        "The only remaining hypotheses of the binary64 theorems -- no NaN among abscissae and query value, pairwise different abscissae -- "
+        "The only remaining hypotheses of the binary64 theorems -- no NaN among the abscissae, pairwise different abscissae (hyps_F also requires a non-NaN value) -- "
         "are decided by vm_compute on every run (hyps_F) and must EQUAL the harness's own evaluation with Python's == / isnan; "
         "C20_run_hypotheses_f64 proves that hyps_F = true implies the theorems' hypotheses",
         "NaN abscissae are outside theorems and correspondence: the model's dict finds keys by == only, CPython also by object identity, "
@@ -1229,14 +1229,22 @@ MANIFEST = {
             "bit-exact vm_compute correspondence of the binary64 instance (scipy values as oracle tables) with "
             "LinearInterpolator/SplineInterpolator on generated series (two interpolation variables interleaved and repeated on one "
             "interpolator object, instances built by ModelInstance or by a Collection, frozen, aliased components, numpy.float64 and "
-            "0-d array leaves, inf/nan queries), the theorems' hypotheses (order axioms, distinct abscissae) decided by vm_compute on "
-            "the finite carrier of every in-quantifier run, and a direct property oracle (identity at nodes, exact least squares, "
+            "0-d array leaves, inf/nan/-0.0 queries, -0.0 and infinite abscissae); the order / known-point / per-leaf / definedness "
+            "theorems are also stated and PROVED for that binary64 instance (C20_*_f64: comparisons PrimFloat.leb / PrimFloat.eqb, "
+            "hypothesis on the numbers = no NaN among the abscissae -- none on the query value; C20_order_laws_f64, from the FloatAxioms "
+            "specification axioms of the Coq library); that hypothesis (for the value too) and `distinct abscissae` are decided by vm_compute on every run (hyps_F, "
+            "C20_run_hypotheses_f64) and must equal the harness's own evaluation with Python's == / isnan; and a direct property "
+            "oracle (identity at nodes, exact least squares, "
             "leaf types, variable, non-mutation and non-sharing by value-and-identity snapshots, order independence)",
     "note": "Trusted: Coq kernel + vm_compute, primitive floats, the translator (pyexpr2coq.py + the statement/return-form readers in "
             "c20.py), the tree abstraction of live objects. The order/known-point/per-leaf theorems are generic in the number type "
-            "under order axioms proved for Z and Q; for binary64 those axioms are not proved (they need the IEEE specification "
-            "axioms of the Coq library, which this development does not use) but checked by computation on the abscissae and query "
-            "of each run. scipy linregress/CubicSpline are oracles: exact least squares is tied to linregress at 1e-9 relative; for "
+            "under order laws relativised to a carrier, proved for Z and Q (carrier = everything) and for binary64 (carrier = non-NaN "
+            "floats; depends on FloatAxioms.eqb_spec / leb_spec, specification axioms declared by the Coq standard library, through "
+            "coq/Common/Float64Order.v); the laws are additionally re-evaluated by computation on the abscissae and query of each run "
+            "(laws_F, a redundant cross-check of the theorem against the kernel's float primitives). NaN abscissae stay outside "
+            "theorems and correspondence (C20_defined_f64_nan_refuted, C20_sorted_abscissae_nan_refuted show the hypothesis is "
+            "needed in the model; CPython's dict also finds a NaN key by object identity and sorted() is timsort with <, neither "
+            "modelled). scipy linregress/CubicSpline are oracles: exact least squares is tied to linregress at 1e-9 relative; for "
             "the spline it is the identity with scipy's default CubicSpline that is pinned bit-exactly (another spline satisfying the "
             "property text would need the oracle table changed), and exactness on linear data is a hypothesis checked at a "
             "condition-number-scaled tolerance. Non-mutation of inputs is checked on the implementation only (the tree model is "
@@ -1244,6 +1252,6 @@ MANIFEST = {
             "inside tuples are not interpolated (no small safe repair: shared walk). Repaired in /repo and pinned by regression "
             "obligations + theorems C20_variable_code / C20_leaf_code / C20_dict_code: discarded final replacement, spline results "
             "as 0-d arrays, floats below dict-valued attributes (query raised). Not covered: "
-            "CovarianceInterpolator, NaN abscissae, int abscissae beyond 2^53.",
+            "CovarianceInterpolator, NaN abscissae, int abscissae beyond 2^53 (Python compares int with float exactly, the model through Z2F).",
     "technique": "machine-checked proof in Coq (translator-regenerated model) + vm_compute correspondence",
 }
